@@ -338,6 +338,8 @@ def geo2grid(lat, lon, zone=0, ellipsoid=grs80, prj=utm):
             zone = int(f'{amgzone}{subzone}')
         else:
             zone = int((float(lon) - (prj.initialcm - (1.5 * prj.zonewidth))) / prj.zonewidth)
+            # lon = 180 and the doubles just below it belong to the last zone, not to a zone past it
+            zone = min(zone, int(360 / prj.zonewidth))
     if prj == isg:
         amgzone = int(str(zone)[:2])
         subzone = int(str(zone)[2])
